@@ -22,7 +22,7 @@ def classify(f):
     if ev.get("out") != "ret":
         return "scope/%s/panic" % ev.get("ev"), ev, src
     if ev["ev"] == "Parse":
-        return ("scope/lexical-redeclaration-accepted" if o["verdict"] == "rejected" else "scope/valid-program-rejected"), ev, src
+        return ("scope/lexical-redeclaration-accepted" if o["verdict"] == "rejected" else "scope/valid-program-rejected") + ("/WhileToFor" if ev.get("w2f") else ""), ev, src
     exp, obs = o["exp"], ev.get("obs", [])
     if ev["ev"] == "Vars" and iso(exp, obs):
         return "scope/uses-count-differs-from-printed-occurrences", ev, src
